@@ -49,6 +49,41 @@ def width0(w, op, n):
     w.claim('builder content unchanged', w.And(w.eq_seq(bits_of(w, b), pre), same_objects(b.refs, refs)))
 
 
+@obligation('C07.snake_capacity', 'C07', cases=[{'q': q, 'p8': p8, 'n': n, 'via': v} for q in (3, 4) for (p8, n) in ((0, 127), (0, 128), (127, 0), (127, 1), (100, 27), (100, 28), (0, 300))
+                                                for v in ('bytes', 'string')],
+            fuc=[B + 'store_snake_bytes', B + 'store_snake_string', B + 'store_ref', B + 'store_bytes'],
+            descr='reference capacity of the snake stores: a builder holding q = 3 or 4 references and p8 bytes receives a snake value of n '
+                  'bytes (contents symbolic): when a continuation cell is needed and all four references are taken the store is refused; '
+                  'it is never refused otherwise; the builder never ends with more than 4 references or 1023 bits')
+def snake_capacity(w, q, p8, n, via):
+    from pytoniq_core.boc.builder import Builder
+    refs = [Child(i) for i in range(q)]
+    b, pre = mk_builder(w, 8 * p8, refs)
+    raw = w.bytes('D', n)
+    if via == 'string':
+        if w.symbolic:
+            from vf.shims import SymText
+            val = SymText(raw) if type(raw) is not bytes else raw.decode('latin1')
+        else:
+            raw = bytes((x % 95) + 32 for x in raw)
+            val = raw.decode()
+        k, out = call(b.store_snake_string, val)
+    else:
+        k, out = call(b.store_snake_bytes, raw)
+    needs_ref = n > 127 - p8
+    if k == 'raise':
+        w.cover('raise')
+        w.claim('refused only when a continuation cell is needed and no reference slot is free', needs_ref and q == 4)
+        w.claim(f'refusal is an API error ({type(out).__name__})', is_error(out))
+    else:
+        w.cover('ok')
+        w.claim('never accepted when the continuation reference does not fit', not (needs_ref and q == 4))
+        w.claim('returns self', out is b)
+        w.claim('references: the old ones, plus one continuation when needed',
+                len(b.refs) == q + (1 if needs_ref else 0) and same_objects(b.refs[:q], refs))
+    w.claim('capacity invariant', w.And(w.seq_of(b.bits).length() <= 1023, len(b.refs) <= 4))
+
+
 @obligation('C07.store_cell', 'C07', cases=[{'q': q, 'j': j} for q in range(5) for j in range(5)],
             fuc=[B + 'store_cell', B + 'store_bits', T + 'extend', T + 'check_overflow'],
             descr='store_cell of a cell with k bits (symbolic) and j refs into a builder with p bits and q refs')
